@@ -499,6 +499,10 @@ spif_dlinked_list_vector_dup(spif_dlinked_list_t self)
     ASSERT_RVAL(!SPIF_VECTOR_ISNULL(self), (spif_dlinked_list_t) NULL);
     tmp = spif_dlinked_list_vector_new();
     memcpy(tmp, self, SPIF_SIZEOF_TYPE(dlinked_list));
+    if (SPIF_DLINKED_LIST_ITEM_ISNULL(self->head)) {
+        /* Empty vector:  nothing to copy. */
+        return tmp;
+    }
     tmp->head = spif_dlinked_list_item_dup(self->head);
     for (src = self->head, dest = tmp->head, prev = (spif_dlinked_list_item_t) NULL;
          src->next;
@@ -506,8 +510,9 @@ spif_dlinked_list_vector_dup(spif_dlinked_list_t self)
         dest->next = spif_dlinked_list_item_dup(src->next);
         dest->prev = prev;
     }
+    dest->prev = prev;
     dest->next = (spif_dlinked_list_item_t) NULL;
-    tmp->tail = prev;
+    tmp->tail = dest;
     return tmp;
 }
 
@@ -520,6 +525,10 @@ spif_dlinked_list_map_dup(spif_dlinked_list_t self)
     ASSERT_RVAL(!SPIF_MAP_ISNULL(self), (spif_dlinked_list_t) NULL);
     tmp = spif_dlinked_list_map_new();
     memcpy(tmp, self, SPIF_SIZEOF_TYPE(dlinked_list));
+    if (SPIF_DLINKED_LIST_ITEM_ISNULL(self->head)) {
+        /* Empty map:  nothing to copy. */
+        return tmp;
+    }
     tmp->head = spif_dlinked_list_item_dup(self->head);
     for (src = self->head, dest = tmp->head, prev = (spif_dlinked_list_item_t) NULL;
          src->next;
@@ -527,8 +536,9 @@ spif_dlinked_list_map_dup(spif_dlinked_list_t self)
         dest->next = spif_dlinked_list_item_dup(src->next);
         dest->prev = prev;
     }
+    dest->prev = prev;
     dest->next = (spif_dlinked_list_item_t) NULL;
-    tmp->tail = prev;
+    tmp->tail = dest;
     return tmp;
 }
 
